@@ -1006,7 +1006,10 @@ func (s *session) block(gen func(b *blockGen), coinbase int, trials bool) {
 			_, err := chain.VerifC01RunBlock(s.sdb, stubCcc{}, v.block, func(b *state.BlockState) { b.SetGasPrice(system.GetGasPrice()) }, s.hf(), false, false)
 			after := s.committedSnap()
 			sumAfter, _ := s.fullSum()
-			impl := "refused"
+			impl := "refused-tx"
+			if err == chain.ErrorBlockVerifyStateRoot || err == chain.ErrorBlockVerifyReceiptRoot {
+				impl = "refused-root"
+			}
 			if err == nil {
 				impl = "accepted"
 				s.fail("C03", "an invalid block ("+v.kind+") was executed and committed", "", v.line)
@@ -1021,6 +1024,25 @@ func (s *session) block(gen func(b *blockGen), coinbase int, trials bool) {
 				return
 			}
 		}
+		// DESIGN §5 lead 8: in verify mode (BlockValidator.verbose, i.e. cfg.Blockchain.VerifyBlock != 0)
+		// ValidatePost only *reports* a receipts-root mismatch. That mode runs blocks with verifyOnly (the
+		// chain manager is not started), so nothing may be committed whatever ValidatePost answers.
+		if s.rng.Chance(1, 4) {
+			s.reloadGlobals()
+			b := cloneBlock(block, block.Body.Txs)
+			b.Header.ReceiptsRootHash = common.Hasher(append([]byte("y"), block.Header.ReceiptsRootHash...))
+			_, err := chain.VerifC01RunBlock(s.sdb, stubCcc{}, b, func(b *state.BlockState) { b.SetGasPrice(system.GetGasPrice()) }, s.hf(), true, true)
+			after := s.committedSnap()
+			if err == nil {
+				s.run.Count("lead8-verify-mode-reports-only")
+			} else {
+				s.run.Count("lead8-verify-mode-refuses")
+			}
+			if !bytes.Equal(rootBefore, s.sdb.GetRoot()) || !after.equalState(preBlock) {
+				s.fail("C03", "verify mode (verifyOnly) committed a block with a wrong receipts root", "", "block "+strconv.FormatUint(bi.No, 10))
+			}
+			s.run.Eval(fmt.Sprintf("lead8 %d %v", bi.No, err == nil), true)
+		}
 		validatorCommit = s.rng.Chance(2, 3)
 	}
 	var final *snap
@@ -1030,7 +1052,7 @@ func (s *session) block(gen func(b *blockGen), coinbase int, trials bool) {
 		final = s.committedSnap()
 		if err != nil {
 			s.fail("C03", "the validator refused the block the producer built from the same state: "+err.Error(), "", "block "+strconv.FormatUint(bi.No, 10))
-			s.op("vblock ok", "refused | "+final.dump(z), true)
+			s.op("vblock ok", "refused-tx | "+final.dump(z), true)
 			s.aborted = true
 			return
 		}
@@ -1111,7 +1133,15 @@ func (s *session) variants(bg *blockGen, block *types.Block, bi *types.BlockHead
 		if !s.rng.Chance(1, 2) {
 			continue
 		}
-		x := s.badTx(preBlock)
+		x := s.badTx(preBlock, func(u int) uint64 {
+			n := preBlock.acct(u).nonce
+			for _, k := range bg.p.specs[:pos] {
+				if k.sender == u {
+					n = k.nonce
+				}
+			}
+			return n + 1
+		})
 		s.finish(x)
 		tx := s.build(x, bi)
 		txs := append(append(append([]*types.Tx{}, block.Body.Txs[:pos]...), tx), block.Body.Txs[pos:]...)
@@ -1124,7 +1154,7 @@ func (s *session) variants(bg *blockGen, block *types.Block, bi *types.BlockHead
 }
 
 // badTx: a transaction that is rejected wherever it stands in the block.
-func (s *session) badTx(pre *snap) *txSpec {
+func (s *session) badTx(pre *snap, nonceAt func(u int) uint64) *txSpec {
 	u := iUser0 + s.rng.Intn(nUsers)
 	huge := new(big.Int).Exp(big.NewInt(10), big.NewInt(26), nil)
 	switch s.rng.Intn(4) {
@@ -1136,8 +1166,10 @@ func (s *session) badTx(pre *snap) *txSpec {
 		// rejected after the VM has written: a system error in a contract call (if a contract exists)
 		for _, c := range sortedKeys(pre.accts) {
 			if pre.accts[c].code && c >= iContract0 {
-				return &txSpec{typ: types.TxType_CALL, sender: iGhost0 + 2, rcpt: c, amount: new(big.Int), nonce: 1 << 40, label: "nonce-high-call",
-					sc: &script{fee: new(big.Int), err: "system"}}
+				// a valid nonce: the tx reaches the VM, which writes storage and pays a third account, then
+				// reports a system error: the executor must roll all of it back and the block must be refused
+				return &txSpec{typ: types.TxType_CALL, sender: u, rcpt: c, amount: big.NewInt(1), nonce: nonceAt(u), label: "vm-system-error",
+					sc: &script{fee: new(big.Int), err: "system", xfers: []xfer{{iGhost0, big.NewInt(1)}}, sets: [][2]int{{0, 9}}}}
 			}
 		}
 		fallthrough
@@ -1685,7 +1717,22 @@ func (b *blockGen) genGov() *txSpec {
 	return x
 }
 
+// genPrefund: a transfer to the address the sender's next deploy would create (CreateContractID is
+// predictable): the deploy is then refused ("account already exists").
+func (b *blockGen) genPrefund() *txSpec {
+	u := b.pickUser()
+	v := b.pickUser()
+	x := &txSpec{typ: types.TxType_TRANSFER, sender: u, amount: big.NewInt(int64(b.s.rng.Intn(3)))}
+	x.rcpt = b.s.t.of(contract.CreateContractID(b.s.t.addr[v], b.nextNonce(v)+uint64(b2i(u == v))))
+	x.nonce = b.nextNonce(u)
+	x.label = "prefund-contract-address"
+	return x
+}
+
 func (b *blockGen) genAny() *txSpec {
+	if b.s.rng.Chance(1, 40) {
+		return b.genPrefund()
+	}
 	switch b.s.rng.Intn(20) {
 	case 0, 1, 2, 3, 4, 5:
 		return b.genTransferLike()
@@ -1897,7 +1944,7 @@ func Main(prop string) {
 	}
 	dpos.VerifC01DecorateBlockReward()
 	n := 0
-	nRandom := run.Pick(3, 40)
+	nRandom := run.Pick(8, 40)
 	blocks := run.Pick(5, 12)
 	txs := run.Pick(10, 12)
 	if prop == "C03" {
